@@ -111,6 +111,7 @@ def run(rep: core.Report):
     _r19d(rep)
     _r19e(rep)
     _r19f(rep)
+    _r19g(rep)
     # R19c
     sii = core.find_def(RD, "RandomDisplacements._solve_ii")
     sij = core.find_def(RD, "RandomDisplacements._solve_ij")
@@ -177,6 +178,41 @@ def run(rep: core.Report):
                  f"the two classes of commensurate points are not treated with real / complex phases respectively ({'; '.join(bad) or 'loops over ' + str(sorted(loops))})", line=prep.lineno)
     part = [s for s in ast.walk(core.find_def(RD, "RandomDisplacements._setup_sampling_qpoints")) if isinstance(s, ast.Assign) and "categorize_commensurate_points" in core.src(s.value)]
     rep.instance("R19c", RD, "RandomDisplacements._setup_sampling_qpoints", core.src(part[0]) if part else "<vanished>", len(part) == 1 and core.src(part[0].targets[0]) == "(self._ii, self._ij)", "the ii/ij partition is not computed once by categorize_commensurate_points", line=part[0].lineno if part else 0)
+
+
+def _r19g(rep):
+    """Assembly of the mean-square displacements and displacement matrices from Q2 and the eigenvectors."""
+    from engine import sites
+
+    rep.rule("R19g", "thermal displacements: |e|^2 / m (per Cartesian component or projected) summed with Q2 over the modes inside the frequency window and averaged over the number of q-points (count + 1 == number of grid points); displacement matrices: e e^dagger / m with Q2, real part, same average", 10)
+    T = "ThermalDisplacements"
+    M = "ThermalDisplacementMatrices"
+    S = [
+        (f"{T}.run", "assign", "vecs2", "(abs(vecs) ** 2).T / masses", "the squared eigenvector components are not divided by the masses"),
+        (f"{T}.run", "assign", "p_vecs", "np.dot(vecs.T.reshape(-1, 3), self._projection_direction).reshape(-1, len(masses))", "the projection of the eigenvectors on the direction is not e . n per atom"),
+        (f"{T}.run", "assign", "self._displacements", "disps / (count + 1)", "the sum over q-points is not divided by the number of q-points"),
+        (f"{T}.run", "aug", "disps", "np.outer(self._get_Q2(f, temps), v2)", "the mode contribution is not Q2(f, T) |e|^2 / m"),
+        (f"{T}.run", "aug", "disps[0]", "np.dot(Q2, vecs2[valid_indices])", "the single-temperature contribution is not sum over modes of Q2 |e|^2 / m"),
+        (f"{M}._get_disp_matrices", "aug", "disps", "Q2[:, None, None, None] * c[None, :, :, :]", "the mode contribution is not Q2(f, T) e e^dagger / m"),
+        (f"{M}._get_disp_matrices", "assign", "self._disp_matrices", "disps.real / (count + 1)", "the displacement matrices are not the real part of the q-point average"),
+    ]
+    for qn, kind, target, text, msg in S:
+        sites.check(rep, "R19g", TD, qn, kind, target, text, msg)
+    # the valid-mode window and the per-atom outer product
+    for qn in (f"{T}.run", f"{M}._get_disp_matrices"):
+        fn = core.find_def(TD, qn)
+        first = [st for st in ast.walk(fn) if isinstance(st, ast.Assign) and core.src(st.targets[0]) == "valid_indices"]
+        more = [st for st in ast.walk(fn) if isinstance(st, ast.AugAssign) and core.src(st.target) == "valid_indices"]
+        fv = "fs" if qn.endswith(".run") else "freqs"
+        ok = len(first) == 1 and core.src(first[0].value).replace(" ", "") == f"{fv}>self._fmin" and len(more) == 1 and isinstance(more[0].op, ast.Mult) and core.src(more[0].value).replace(" ", "") == f"{fv}<self._fmax"
+        rep.instance("R19g", TD, qn, f"modes with fmin < f (< fmax when given)", ok, "the frequency window selecting the modes changed", line=fn.lineno)
+        asserts = [a for a in ast.walk(fn) if isinstance(a, ast.Assert) and "mesh_numbers" in core.src(a.test)]
+        ok_a = len(asserts) == 1 and symalg.same(symalg.open_expr(core.src(asserts[0].test.left)), symalg.open_expr("np.prod(self._iter_mesh.mesh_numbers)"))[0] and symalg.same(symalg.open_expr(core.src(asserts[0].test.comparators[0])), symalg.open_expr("count + 1"))[0]
+        rep.instance("R19g", TD, qn, "count + 1 == number of grid points (unreduced mesh)", ok_a, "nothing ties the divisor to the number of grid points", line=fn.lineno, nontrivial=False)
+    dm = core.find_def(TD, f"{M}._get_disp_matrices")
+    cs = [st for st in ast.walk(dm) if isinstance(st, ast.Assign) and isinstance(st.targets[0], ast.Subscript) and core.src(st.targets[0].value) == "c"]
+    ok_c = len(cs) == 1 and symalg.same(symalg.open_expr(core.src(cs[0].value)), symalg.open_expr("np.outer(v, v.conj()) / m"))[0] and core.src(cs[0].targets[0].slice) == "i"
+    rep.instance("R19g", TD, f"{M}._get_disp_matrices", "c[i] = outer(e_i, conj(e_i)) / m_i", ok_c, "the per-atom matrix is not e e^dagger / m stored for atom i", line=dm.lineno)
 
 
 def _r19f(rep):
@@ -317,4 +353,7 @@ def selftest():
     b("D-type transform without the transpose", RD, "        dm = ((V * (V.conj() * dm).T).T).real  # C-type to D-type", "        dm = ((V * (V.conj() * dm)).T).real  # C-type to D-type", "R19f", "_C_to_D")
     b("q-points not divided by N", RD, "        for q in self._comm_points[self._ii] / float(N):", "        for q in self._comm_points[self._ii] * float(N):", "R19f", "_prepare")
     n("mass normalisation as two square roots", RD, "        u = np.array((u_ii + u_ij) / np.sqrt(mass * N), dtype=\"double\", order=\"C\")", "        u = np.array((u_ij + u_ii) / np.sqrt(N * mass), dtype=\"double\", order=\"C\")")
+    b("displacements multiplied by the masses", TD, "                vecs2 = (abs(vecs) ** 2).T / masses", "                vecs2 = (abs(vecs) ** 2).T * masses", "R19g", "vecs2")
+    b("q-point average off by one", TD, "        self._displacements = disps / (count + 1)", "        self._displacements = disps / count", "R19g", "_displacements")
+    b("displacement matrix without conjugation", TD, "                    c[i] = np.outer(v, v.conj()) / m", "                    c[i] = np.outer(v, v) / m", "R19g", "c[i]")
     return V
